@@ -1291,7 +1291,9 @@ func evalPrimeExpr(vm *r.VM, expr syntax.Expression) (r.Element, error) {
 			if err != nil {
 				return nil, err
 			}
-			znObjs = append(znObjs, expr)
+			// an item is the value its expression has now (a copy, like every other store
+			// into a collection): a later item may change the variable it names in place
+			znObjs = append(znObjs, value.DuplicateValue(expr))
 		}
 
 		return value.NewArray(znObjs), nil
@@ -1328,7 +1330,7 @@ func evalPrimeExpr(vm *r.VM, expr syntax.Expression) (r.Element, error) {
 			}
 			znPairs = append(znPairs, value.KVPair{
 				Key:   exprKey,
-				Value: exprVal,
+				Value: value.DuplicateValue(exprVal), // (its value now, as for list items)
 			})
 		}
 		return value.NewHashMap(znPairs), nil
